@@ -18,22 +18,45 @@ import (
 // call log of the underlying writer.
 
 var c08Codes = []int{0, -1, 100, 200, 201, 204, 301, 404, 500, 599}
+var c08OddCodes = []int{101, 103, 199, 202, 205, 206, 226, 300, 304, 307, 308, 400, 401, 418, 451, 499, 503, 511, 598, 1, 99, 600, 999, -200}
 var c08Payloads = []string{"", "a", "hello", "0123456789abcdef0123456789abcdef", "x\n"}
+
+func c08Code(rng *Rng) int {
+	switch {
+	case rng.Chance(1, 12):
+		return c08OddCodes[rng.Intn(len(c08OddCodes))]
+	case rng.Chance(1, 12):
+		return rng.Range(100, 599)
+	}
+	return c08Codes[rng.Intn(len(c08Codes))]
+}
+
+func c08Payload(rng *Rng) string {
+	switch {
+	case rng.Chance(1, 30):
+		return strings.Repeat("p", rng.Pick2(4096, 4097))
+	case rng.Chance(1, 120):
+		return strings.Repeat("q", 33000) // larger than io.Copy's buffer
+	}
+	return rng.Pick(c08Payloads)
+}
 
 func c08Ops(rng *Rng, n int, allowText bool) []Action {
 	var out []Action
 	for i := 0; i < n; i++ {
 		switch rng.Intn(12) {
 		case 0, 1, 2:
-			out = append(out, Action{Op: "status", N: c08Codes[rng.Intn(len(c08Codes))]})
+			out = append(out, Action{Op: "status", N: c08Code(rng)})
 		case 3:
-			out = append(out, Action{Op: "rawstatus", N: c08Codes[rng.Intn(len(c08Codes))]})
+			out = append(out, Action{Op: "rawstatus", N: c08Code(rng)})
 		case 4:
 			out = append(out, Action{Op: "header", S: "X-K" + strconv.Itoa(rng.Intn(3)), V: "v"})
 		case 5, 6, 7:
-			out = append(out, Action{Op: "write", S: rng.Pick(c08Payloads)})
-		case 8, 9:
+			out = append(out, Action{Op: "write", S: c08Payload(rng)})
+		case 8:
 			out = append(out, Action{Op: "flush"})
+		case 9:
+			out = append(out, Action{Op: rng.Pick([]string{"flush", "flush", "rcflush"})})
 		case 10:
 			if rng.Chance(1, 2) {
 				out = append(out, Action{Op: "httperr", N: rng.Pick2(404, 500), S: "oops"})
@@ -42,7 +65,7 @@ func c08Ops(rng *Rng, n int, allowText bool) []Action {
 			}
 		case 11:
 			if rng.Chance(1, 3) {
-				out = append(out, Action{Op: "stream", N: rng.Pick2(200, 206), S: rng.Pick(c08Payloads)})
+				out = append(out, Action{Op: "stream", N: rng.Pick2(200, 206), S: c08Payload(rng)})
 			} else if allowText && rng.Chance(1, 2) {
 				out = append(out, Action{Op: "text", N: rng.Pick2(200, 202), S: rng.Pick(c08Payloads)})
 			} else {
@@ -320,7 +343,7 @@ func modelCommit(prop string, rec *ReqRec, rq *Req, judgePanicked, opaque bool) 
 				lastWrite = &r
 			case "wstr":
 				write(arg)
-			case "flush":
+			case "flush", "rcflush":
 				commit()
 				exp = append(exp, WCall{Op: "Flush"})
 			case "endofdispatch":
@@ -351,8 +374,17 @@ func modelCommit(prop string, rec *ReqRec, rq *Req, judgePanicked, opaque bool) 
 				code, _ := strconv.Atoi(p[0])
 				setStatus(code)
 				hadCT = true
-				if len(p[1]) > 0 {
-					write(p[1]) // one chunk: a write error ends the copy (recorded with AddError, no panic)
+				// io.Copy without ReaderFrom/WriterTo moves 32 KiB at a time and stops at the first error or short write
+				for rest := p[1]; len(rest) > 0; {
+					n := len(rest)
+					if n > 32*1024 {
+						n = 32 * 1024
+					}
+					r := write(rest[:n])
+					if r.err != nil || r.n < n {
+						break
+					}
+					rest = rest[n:]
 				}
 			case "text":
 				p := strings.SplitN(arg, ":", 2)
